@@ -3,22 +3,28 @@
 import json
 
 CLAIMS = {
- "C01": ("static analysis: float-purity lint over go/ssa (H1), loop-completeness lint (D2)",
-         "Decided statically: coordinates are only moved/bit-cast on the WKB/EWKB path (H1, for all float64 bit patterns); writer member loops cover all members (D2). NOT decided: value-level round-trip equality, hex/prefix framing.",
+ "C01": ("static analysis: float-purity lint over go/ssa (H1), writer/reader table extraction from SSA (T1 type words, member SRID; T2 byte-order arms and order byte), loop-completeness lint (D2)",
+         "Decided statically: coordinates are only moved/bit-cast on the WKB/EWKB path (H1, for all float64 bit patterns); reader(writer(K)) = K on type words for the seven WKB kinds with both readers identical, members carry SRID 0, byte-order arms are pure and the order byte is inverse between writer and readers (T1/T2); writer member loops cover all members (D2). NOT decided: value-level round-trip equality, hex/prefix framing.",
          "DESIGN.md §4 C01"),
+ "C02": ("static analysis: type-name/tag/depth table extraction (T5), kind typestate at the coordinates stores, loop lint (D2), abstract interpretation of the constructors (A)",
+         "Decided statically: JSON and BSON decoders map each RFC 7946 type name to a type whose GeoJSONType() and nesting depth match, identically in both; marshal/unmarshal documents name the same members; Ring/Bound/Collection never reach \"coordinates\"; member loops complete; NewGeometry/NewFeature total. NOT decided: float text round trip, properties/ids/foreign members, byte-identical re-marshal.",
+         "DESIGN.md §4 C02"),
  "C03": ("static analysis: map-order determinism dataflow (F), run-once/member loop lints (D1, D2)",
          "Decided statically for all inputs and all map orders: no map iteration order reaches Marshal's output (F). Every collection member/feature loop is complete (D1/D2; addFeature's first-iteration return is the recorded known finding). NOT decided: zigzag arithmetic, ring regrouping, value widening.",
          "DESIGN.md §4 C03"),
+ "C04": ("static analysis: keyword/offset/EMPTY/format table extraction from the syntax tree (T4), abstract interpretation of the writer (A), loop lint (D2)",
+         "Decided statically: writer and parsers agree on keyword, keyword offset and EMPTY literal for every kind; Ring/Bound written as POLYGON; floats printed with %g/%v and parsed with 64 bits; the writer is total on every kind/shape. NOT decided: the text grammar (collection splitting on exponents/nesting/EMPTY members, whitespace tolerance) - a round-trip failure there is known and out of reach of this family.",
+         "DESIGN.md §4 C04"),
  "C05": ("static analysis: bit-width tracking of decoded counts (E2)",
          "Decided statically: guard arithmetic on decoded counts cannot wrap in a narrow unsigned type (E2). NOT decided: termination, long inputs, total allocation as a number.",
          "DESIGN.md §4 C05"),
  "C06": ("static analysis: inclusion-based points-to (fresh-result B2, no-write B1), abstract interpretation over kinds x degenerate shapes (A), loop lint (D2)",
          "Decided statically: every Clone result is fresh at every nesting level and Clone never writes its argument (B1/B2, all inputs); no certain fault for nil/empty/singleton receivers of the core methods (A); element loops complete (D2). NOT decided: lattice laws, tightness of Bound, orientation sign.",
          "DESIGN.md §4 C06"),
- "C07": ("static analysis: points-to effects (B1 no-write, B2 fresh-result) for the line-clipping entries, abstract interpretation over line shapes (A), segment-loop lint (D3)",
-         "Decided statically for all inputs: clip.LineString/MultiLineString/MultiPoint never write their argument and the returned pieces never alias it (B1/B2); no certain fault for nil/empty/1..4-vertex lines (A); the clipping loop visits every segment (D3). NOT decided: that the pieces are exactly the inside part, order, length, idempotence, open-bound semantics.",
+ "C07": ("static analysis: points-to effects (B1 no-write, B2 fresh-result) for the line-clipping entries, abstract interpretation over line shapes (A), segment-loop lint (D3), region-code table extraction and open-flag flow (T7)",
+         "Decided statically for all inputs: clip.LineString/MultiLineString/MultiPoint never write their argument and the returned pieces never alias it (B1/B2); no certain fault for nil/empty/1..4-vertex lines (A); the clipping loop visits every segment (D3); region codes: closed variant strict (boundary inside), open variant non-strict, same bit per edge everywhere, intersect returns the box edge coordinate unmodified, the open option reaches the open code (T7). NOT decided: that the pieces are exactly the inside part, order, length, idempotence, open-bound semantics.",
          "DESIGN.md §4 C07"),
- "C08": ("static analysis: abstract interpretation over kinds x degenerate shapes with shape-decided postconditions (A, A-post/H4), loop lints (D1-D3)",
+ "C08": ("static analysis: abstract interpretation over kinds x degenerate shapes with shape-decided postconditions (A, A-post/H4), loop lints (D1-D3), region-code tables (T7)",
          "Decided statically: no certain fault through any clip entry for any kind x degenerate shape; clip.Geometry yields a nil interface for nil/empty input and never a typed nil inside a non-nil interface (the form mvt Layer.Clip tests); member loops complete. NOT decided: enclosed-region preservation, area additivity.",
          "DESIGN.md §4 C08"),
  "C10": ("static analysis: segment/member loop-completeness lint (D2, D3), abstract interpretation over kinds x shapes (A)",
@@ -36,8 +42,8 @@ CLAIMS = {
  "C15": ("static analysis: index-preserving-map dataflow over go/ssa (H3), loop lint (D2), abstract interpretation over kinds x shapes (A)",
          "Decided statically: every projection helper stores f(x[i]) to x[i] for the same index value and from no other element, the bound helper projects exactly its two corners, every member/feature loop is complete, no certain fault for any kind/shape. NOT decided: every numeric inverse/rounding claim (mercator closed forms, half-pixel offsets, non-power-of-two extents).",
          "DESIGN.md §4 C15"),
- "C16": ("static analysis: abstract interpretation over 2-d kinds x shapes x orientations (A), loop lint (D2)",
-         "Decided statically: no certain fault for any kind x degenerate shape x both orientations (A); member loops complete (D2). NOT decided: region equality, hole attachment.",
+ "C16": ("static analysis: abstract interpretation over 2-d kinds x shapes x orientations (A), loop lint (D2), region-code and corner-table extraction (T7, T8)",
+         "Decided statically: no certain fault for any kind x degenerate shape x both orientations (A); member loops complete (D2); smartclip's region code agrees with clip's and treats the boundary as outside (T7); nexts/pointFor corner tables decided completely: single 8-cycles, mutually inverse, correctly oriented, on their edges (T8). NOT decided: region equality, hole attachment.",
          "DESIGN.md §4 C16"),
  "C17": ("static analysis: abstract interpretation over line shapes x enumerated counts (A), segment loop lint (D3)",
          "Decided statically: no certain fault (negative make, index) for nil/empty/1..4-vertex lines x N in {-1,0,1,2,3,free} (A); distance loops visit every segment (D3). NOT decided: exact count and spacing.",
